@@ -28,7 +28,7 @@ ASSUMPTIONS = [
     "'immediately' = the two status requests are among the frames the console receives within 50 ms (+ link latency) of the new connection",
     "poll deadlines within 0.1 s of a group status arrival or of a connection change are not judged",
 ]
-PROBES = ["c14.reconnection_dead_on_arrival", "c14.poll_deadline_in_outage", "c14.silence_after_outage", "c14.poll_write_error", "c14.fin", "c14.rst", "c14.blackhole", "c14.reboot", "c14.write_error", "c14.state_changed_while_down", "c14.unchanged_refresh",
+PROBES = ["c14.poll_deadline_with_full_buffer", "c14.reconnection_dead_on_arrival", "c14.poll_deadline_in_outage", "c14.silence_after_outage", "c14.poll_write_error", "c14.fin", "c14.rst", "c14.blackhole", "c14.reboot", "c14.write_error", "c14.state_changed_while_down", "c14.unchanged_refresh",
           "c14.outage_beyond_heartbeat", "c14.second_outage", "c14.poll_after_outage", "c14.poll_fired", "c14.poll_repeated", "c14.poll_pushed_back"]
 
 
@@ -138,6 +138,13 @@ def gen_poll(rng) -> dict:
         tl.append({"at": t_o, "op": "net.fin"})
         info["outage_at"] = t_o
         info["deadline_in_outage"] = True
+        if rng.random() < 0.5:
+            # the user keeps issuing commands during the outage ("all zones off"): at the poll deadline the client's buffer of
+            # pending messages is full (ten, 30 s each) - whatever the poll does with that, the polling must go on afterwards
+            t_c = 300.0 * k - rng.choice([0.5, 1.0, 1.5])
+            for i in range(rng.choice([10, 10, 11, 12])):
+                tl.append({"at": t_c + i * 2.0**-6, "op": "user.api", "target": ["zone", rng.choice(zones)], "call": "set_power", "args": {"zone_power": rng.choice(["ON", "OFF"])}})
+            info["commands_in_outage"] = True
     elif rng.random() < 0.3:
         t_o = G.dyadic(rng, 20.0, 700.0)
         tl.append({"at": t_o - G.EPS, "op": "net.fates", "fates": [{"kind": "accept", "latency": rng.choice([0.0, 1.0])}]})
@@ -314,6 +321,8 @@ def execute_poll(sc: dict) -> dict:
         later_downs = [d for d in downs if d > t_r + 0.5]
         if sc["info"].get("deadline_in_outage"):
             probes["c14.poll_deadline_in_outage"] = 1
+        if sc["info"].get("commands_in_outage"):
+            probes["c14.poll_deadline_with_full_buffer"] = 1
         if not later_arrivals and not later_downs and end - t_r > 620.0:
             all_reqs = [e["t"] for e in w.console.rx if e["reading"]["kind"] == "group_status_request" and t_r + 1.0 < e["t"] <= t_r + 610.0]
             probes["c14.silence_after_outage"] = 1
